@@ -28,6 +28,25 @@ Theorem C04_closing_silent : forall h h' q, made (conns (run h) q) = true -> clo
 Proof. exact (closing_silent bname store async_store). Qed.
 End C04.
 
+(* ---- the same for the code as TRANSLATED from the Python source on every run (harness/pytrans3.py -> BrokerGen.v):
+   run_src is the event loop with the translated Server.subscribe/unsubscribe/publish and Connection.on_publish/
+   on_subscribe/on_unsubscribe/authenticate/connection_lost/message_received plugged in; BrokerGenRun.run_src_eq proves it
+   equal to the model.  These theorems rely on functional_extensionality_dep (Coq standard library) and nothing else. *)
+From HP Require Import PyBroker BrokerGen BrokerGenEq BrokerGenRun BrokerGenProps.
+Theorem C04_src_run_is_model : forall bname store async_store h, run_src bname store async_store h = run bname store async_store h.
+Proof. exact run_src_eq. Qed.
+Theorem C04_src_confidential : forall bname store async_store h q i c d, In (i, c, d) (pubs (out (conns (run_src bname store async_store h) q))) ->
+  exists l1 p t, alog (run_src bname store async_store h) = l1 ++ APub p i c d :: t /\
+    (exists r, last_auth t p = Some (i, r) /\ In c (r_pub r)) /\
+    (exists l2 t2 i2 r2, t = l2 ++ ASub q c :: t2 /\ last_auth t2 q = Some (i2, r2) /\ In c (r_sub r2)) /\
+    sp_closed (spec t) q = false.
+Proof. exact src_delivered_legit. Qed.
+Theorem C04_src_forbidden_subscribe : forall q i c s, ~ In c (subchans (conns s q)) -> Connection_on_subscribe q i c s = BOk false (bad q s).
+Proof. exact src_forbidden_subscribe_reject. Qed.
+
 Print Assumptions C04_confidential.
 Print Assumptions C04_forbidden_subscribe.
 Print Assumptions C04_closing_silent.
+Print Assumptions C04_src_run_is_model.
+Print Assumptions C04_src_confidential.
+Print Assumptions C04_src_forbidden_subscribe.
